@@ -12,3 +12,8 @@ open SamVerif.Incremental
 #print axioms lsp_glue_file_view
 #print axioms lsp_events_refine_fresh
 #print axioms incremental_refines_fresh_epochs
+#print axioms graph_fresh
+#print axioms rename_single
+#print axioms rename_self_identity
+#print axioms rename_missing_noop
+#print axioms rename_chain
